@@ -335,8 +335,9 @@ class YP(object):
 
     def once(self, goal):
         '''once/1 calls goal only once.'''
-        q = self.call(goal)
-        yield next(q)
+        for _ in self.call(goal):
+            yield False
+            return
 
     def asserta(self, term):
         '''asserta(Term) adds Term to the facts database at the beginning.'''
